@@ -5,7 +5,9 @@ import (
 	"encoding/xml"
 	"errors"
 	"fmt"
+	"mellium.im/xmlstream"
 	"strconv"
+	"strings"
 	"time"
 
 	"mellium.im/xmpp/stanza"
@@ -16,7 +18,7 @@ import (
 	"mellium.im/xmpp/verifharness/stall"
 )
 
-var forcedList = []string{"F1", "F2", "F3", "F4", "F5", "F6", "F7", "R1", "R2", "R3"}
+var forcedList = []string{"F1", "F2", "F3", "F4", "F5", "F6", "F7", "R1", "R2", "R3", "B1", "B2", "B3", "B4", "B5", "B6"}
 
 type freq struct {
 	rq, id string
@@ -103,7 +105,116 @@ func (w *world) sync(n int) bool {
 	return false
 }
 
+// runBroken is the B scenarios: the reply to a blocking request breaks off
+// inside the response stanza (B1-B3: malformed XML, B4-B6: the connection
+// ends), the caller reads what it was given to the end and disposes of it the
+// way the entry point prescribes.  The stream is beyond repair, but nothing
+// may hang: the call returns and Serve returns (with an error).
+func runBroken(c *core.Case, id string) {
+	smp := &sample{Kind: id}
+	c.Sample(smp)
+	w := newWorld(c, sess.Opts{})
+	if w == nil {
+		return
+	}
+	what := "broken-xml"
+	if id >= "B4" {
+		what = "broken-eof"
+	}
+	via := map[string]string{"B1": "SendIQ", "B2": "IterIQ", "B3": "UnmarshalIQ", "B4": "SendIQ", "B5": "IterIQ", "B6": "UnmarshalIQ"}[id]
+	rq, rid := "b", "id-b"
+	pl := newPlan("iq", replySpec{what, "now"})
+	w.mu.Lock()
+	w.plans[rq] = pl
+	w.mu.Unlock()
+	w.log.add(ev{Ev: "begin", RQ: rq, Via: via, Kind: "iq", ID: rid, Note: "forced:" + what})
+	callDone := make(chan struct{})
+	go func() {
+		defer close(callDone)
+		var err error
+		c.Guard(via, func() {
+			s := w.p.S
+			iq := stanza.IQ{Type: stanza.GetIQ, ID: rid}
+			switch via {
+			case "SendIQ":
+				var rc xmlstream.TokenReadCloser
+				rc, err = s.SendIQ(context.Background(), iq.Wrap(&sliceReader{payload(rq)}))
+				if rc != nil {
+					for {
+						if _, terr := rc.Token(); terr != nil {
+							break
+						}
+					}
+					rc.Close()
+				}
+			case "IterIQ":
+				var it *xmlstream.Iter
+				it, _, err = s.IterIQ(context.Background(), iq.Wrap(&sliceReader{payload(rq)}))
+				if it != nil {
+					for it.Next() {
+						if _, r := it.Current(); r != nil {
+							xmlstream.Copy(xmlstream.Discard(), r)
+						}
+					}
+					_ = it.Err()
+					it.Close()
+				}
+			default:
+				var v struct {
+					XMLName xml.Name
+					C       []struct{} `xml:"c"`
+					D       string     `xml:"d"`
+				}
+				err = s.UnmarshalIQ(context.Background(), iq.Wrap(&sliceReader{payload(rq)}), &v)
+			}
+		})
+		out := "got"
+		if err != nil {
+			out = "other:" + err.Error()
+		}
+		w.log.add(ev{Ev: "end", RQ: rq, Via: via, Out: out})
+	}()
+	abort := func() {
+		w.p.Peer.Close()
+		w.p.Lib.Close()
+	}
+	if fin, quiet := stall.AwaitQuiet(callDone, w.progress, 10*time.Second, 100*time.Second); !fin {
+		if ps := stall.Check(nil, 0); quiet && len(ps) > 0 {
+			c.Violate(stall.Key(ps[0]), "%s: the reply broke off inside the response (%s); the caller never returned and the system is quiescent; parked:\n%s", id, what, ps[0].Stack)
+		} else {
+			c.Inconclusive("%s: the caller did not return (quiescent=%v)", id, quiet)
+		}
+		abort()
+		return
+	}
+	serveDone := make(chan struct{})
+	var serveErr error
+	go func() { serveErr = <-w.serveCh; close(serveDone) }()
+	if fin, quiet := stall.AwaitQuiet(serveDone, w.progress, 10*time.Second, 100*time.Second); !fin {
+		if ps := stall.Check(nil, 0); quiet && len(ps) > 0 {
+			c.Violate(stall.Key(ps[0]), "%s: the reply broke off inside the response (%s) and the caller (%s) has read it to the end and disposed of it, but Serve never returns; parked:\n%s", id, what, via, ps[0].Stack)
+		} else {
+			c.Inconclusive("%s: Serve did not return (quiescent=%v)", id, quiet)
+		}
+		abort()
+		return
+	}
+	if serveErr == nil && what == "broken-xml" {
+		c.Violate("serve:nil-after-malformed-reply", "%s: Serve returned nil although the input was not well-formed", id)
+	}
+	abort()
+	c.Count("forced_scenarios", 1)
+	c.Count("forced:"+id, 1)
+	c.Count("broken_replies_survived", 1)
+	c.Sig("forced/%s/%s", id, via)
+	smp.Log = w.log.snapshot()
+}
+
 func runForced(c *core.Case, id string) {
+	if strings.HasPrefix(id, "B") {
+		runBroken(c, id)
+		return
+	}
 	smp := &sample{Kind: id}
 	c.Sample(smp)
 	ct := ctrl.New()
